@@ -139,6 +139,15 @@ func VerifC14Restart() {
 	offset := verifrt.Choice("first_round_offset", 3)
 	p.TokenFeeders[1].StartBaseBlock = uint64(start) + uint64(offset)
 	p.TokenFeeders[1].Interval = uint64(verifrt.Param("interval", 4))
+	// the feeder may be scheduled to stop: never, inside its first round's window, or in its second round
+	if verifrt.Param("with_end_block", 1) == 1 {
+		switch verifrt.Choice("feeder_end_block", 3) {
+		case 1:
+			p.TokenFeeders[1].EndBlock = p.TokenFeeders[1].StartBaseBlock + 2
+		case 2:
+			p.TokenFeeders[1].EndBlock = p.TokenFeeders[1].StartBaseBlock + p.TokenFeeders[1].Interval + 1
+		}
+	}
 	k.SetParams(ctx, p)
 	am := AppModule{keeper: k}
 	ms := keeper.NewMsgServerImpl(k)
